@@ -38,7 +38,7 @@ def run(ck):
     ck.rule("C06.R4", "scope walk follows parent links; from_root reverses", floor=3)
     ck.rule("C06.R7", "a filtered layer's current span comes from the thread's entered-span stack, not from parent links (as C07.R3)", floor=1)
     ck.rule("C06.R6", "collector wrappers forward enter/exit/new_span/current_span and the reference counting that keeps ancestors alive (as C09.R1/R2)", floor=15)
-    ck.rule("C06.R5", "captured span traces hold counted handles", floor=1)
+    ck.rule("C06.R5", "captured span traces hold counted handles and are read back through the handle's own collector", floor=2)
     ck.rule("C06.R8", "every macro form hands the written `parent:` (a span, or None for an explicit root) to the constructor, and only contextual forms use the current span", floor=300)
     r1(ck, F)
     r2(ck, F)
@@ -313,6 +313,20 @@ def r5(ck, F):
             ck.ok("C06.R5", "SpanTrace::capture stores Span::current() (a counted handle, C03.R3)", fn=b.path)
         else:
             ck.bad("C06.R5", "SpanTrace::capture stores Span::current()", where(b.raw["sp"]), "capture is %s" % r, fn=b.path)
+    # ... and the trace is read back through that handle's own collector (the one the spans live in), never through
+    # whatever happens to be the reading thread's default at that moment
+    ws = F.body("tracing_error::backtrace::SpanTrace::with_spans")
+    if ck.anchor("C06.R5", "SpanTrace::with_spans", ws):
+        bodies = [ws] + F.closures_of(ws)
+        own = [1 for x in bodies for bb, t in x.calls() if t["callee"].get("path") == "tracing::span::Span::with_collector"]
+        ambient = [t["callee"].get("path") for x in bodies for bb, t in x.calls() if (t["callee"].get("path") or "").startswith("tracing_core::dispatch::get_")
+                   or (t["callee"].get("path") or "").endswith("Span::current")]
+        key = "SpanTrace::with_spans walks the captured span's own collector"
+        if own and not ambient:
+            ck.ok("C06.R5", key, fn=ws.path)
+        else:
+            ck.bad("C06.R5", key, where(ws.raw["sp"]), "the captured id is resolved through %s: read on another thread, after the scope ended or under another collector "
+                   "the trace is empty or shows an unrelated span's ancestors" % (sorted(set(ambient)) or "something other than Span::with_collector"), fn=ws.path)
 
 
 def r8(ck):
